@@ -322,6 +322,8 @@ pub fn run(args: &Args) {
   let excluded: Vec<&str> = CONTEXT_DEPENDENT.iter().map(|x| x.0).collect();
   // triggering, embeddable snippets per context-free rule
   let mut by_rule: BTreeMap<String, Vec<usize>> = BTreeMap::new();
+  // the rule's own *non-offending* snippets (its `valid` tests): nesting must not create a report either
+  let mut silent_by_rule: BTreeMap<String, Vec<usize>> = BTreeMap::new();
   let mut linters: BTreeMap<String, deno_lint::linter::Linter> = BTreeMap::new();
   for (i, sn) in corpus.iter().enumerate() {
     let closed_class = CLOSED_WHEN_SELF_CONTAINED.contains(&sn.rule.as_str());
@@ -336,6 +338,8 @@ pub fn run(args: &Args) {
     if let Outcome::Ok(d) = lint(l, &sn.src, ext) {
       if !d.is_empty() {
         by_rule.entry(sn.rule.clone()).or_default().push(i);
+      } else {
+        silent_by_rule.entry(sn.rule.clone()).or_default().push(i);
       }
     }
   }
@@ -350,7 +354,17 @@ pub fn run(args: &Args) {
     // round-robin over rules; a seed-dependent construct; a random context chain
     let rule = &rules[case_no % rules.len()];
     let idxs = &by_rule[rule];
-    let sn = &corpus[idxs[(case_no / rules.len() + args.seed as usize) % idxs.len()]];
+    let mut sn = &corpus[idxs[(case_no / rules.len() + args.seed as usize) % idxs.len()]];
+    // every fifth case (drawn) the construct is one the rule accepts: it stays silent at any nesting, whatever else of
+    // the same rule the context holds
+    let mut silent_construct = false;
+    // (not for the scope rules: what an accepted snippet declares interacts with its own imports and with siblings)
+    if crng.chance(1, 5) && !SCOPE_LOCAL.contains(&rule.as_str()) {
+      if let Some(sil) = silent_by_rule.get(rule) {
+        sn = &corpus[sil[crng.below(sil.len())]];
+        silent_construct = true;
+      }
+    }
     let tsx = rule.starts_with("jsx") || rule.starts_with("react") || sn.src.contains("</") || sn.src.contains("/>");
     let d = crng.range(1, depth);
     let mut chain: Vec<usize> = vec![];
@@ -393,6 +407,7 @@ pub fn run(args: &Args) {
     // everything else — the construct itself with its regular-expression flags toggled when it has any, else another
     // triggering snippet of the rule.  A context-free rule reports each of them as if the other were not there.
     let mut names: Vec<&str> = chain.iter().map(|c| CONTEXTS[*c].0).collect();
+    let mut sib_texts: Vec<String> = vec![];
     // (drawn, not `case_no % 4`: the rules are visited round-robin, and a rule count divisible by four would give some
     // rules a sibling always and the others never)
     if (crng.chance(1, 4) || (sn.src.contains("RegExp") && crng.chance(1, 2))) && !SCOPE_LOCAL.contains(&rule.as_str()) {
@@ -405,6 +420,45 @@ pub fn run(args: &Args) {
       if embeddable(&sib) {
         pre = format!("{}\n{}", sib.trim_end(), pre);
         names.insert(0, "sibling-of-same-rule");
+        sib_texts.push(sib.clone());
+      }
+    }
+    // every fifth case (always for an accepted construct) the context holds a *late sibling that is traversed early*:
+    // another offending construct of the same rule that stands after the hole in the source but is visited before it
+    // (deno_ast's view yields a do-while test before the body and a class body before the `extends` expression)
+    if (silent_construct || crng.chance(1, 5)) && !SCOPE_LOCAL.contains(&rule.as_str()) {
+      let sib = corpus[idxs[crng.below(idxs.len())]].src.clone();
+      let (sp, sb) = split_prelude(&sib);
+      if embeddable(&sb) && sp.is_empty() {
+        sib_texts.push(sb.clone());
+        match crng.below(3) {
+          0 => {
+            pre = format!("do {{ {}", pre);
+            suf = format!("{} }} while ((() => {{ {} }})());", suf, sb.trim_end());
+            names.insert(0, "do-while-body-with-sibling-in-test");
+          }
+          1 => {
+            pre = format!("(class extends ((() => {{ {}", pre);
+            suf = format!("{} }})()) {{ m9() {{ {} }} }});", suf, sb.trim_end());
+            names.insert(0, "extends-expression-with-sibling-in-class-body");
+          }
+          _ => {
+            suf = format!("{}\n{}", suf, sb.trim_end());
+            names.insert(0, "sibling-after");
+          }
+        }
+      }
+    }
+    if silent_construct {
+      names.insert(0, "accepted-construct");
+      // an accepted construct that declares a name a sibling uses (`var RegExp = function() {}` next to `RegExp(' ')`)
+      // changes the sibling's verdict through scoping, as it should: not a context-free pair
+      let declared: Vec<String> = sn.src.split(|c: char| !(c.is_alphanumeric() || c == '_' || c == '$')).collect::<Vec<_>>().windows(2)
+        .filter(|w| ["var", "let", "const", "function", "class", "enum", "import"].contains(&w[0]) && !w[1].is_empty()).map(|w| w[1].to_string()).collect();
+      let word_in = |t: &str, w: &str| t.split(|c: char| !(c.is_alphanumeric() || c == '_' || c == '$')).any(|x| x == w);
+      if declared.iter().any(|d| sib_texts.iter().any(|t| word_in(t, d))) {
+        out.count("skipped-accepted-construct-binds-a-name-of-the-sibling");
+        continue;
       }
     }
     let (prel, body) = split_prelude(&sn.src);
